@@ -1710,7 +1710,13 @@ class GroupBy:
             )
 
         if times is not None:
-            # (a length mismatch is reported by ema_grouped)
+            # (a length mismatch is reported by ema_grouped, unless the group-sorted
+            # gather below would cut times down to the right length first)
+            if index_by_groups and len(times) != len(self):
+                raise ValueError(
+                    "group_key, values, times must have equal length. Got lengths: "
+                    f"{{'group_key': {len(self)}, 'values': {len(self)}, 'times': {len(times)}}}"
+                )
             if isinstance(times, pd.Series) and len(times) == len(self):
                 for index in (self._key_index, common_index):
                     if index is not None and not index.equals(times.index):
